@@ -256,8 +256,8 @@ PROPS = {
     "C13": {
         "title": "Presence converges and user IDs address one live user",
         "level": "exploration",
-        "rule": "rapid state machine over an administrator and up to 6 clients: connect in the 1.2.3 flow (name in login) or the 1.5 flow (login, "
-                "later agreed with name/icon/options/auto-reply), set-client-user-info (name incl. 505/600-byte names, 2- or 4-byte icon, options "
+        "rule": "rapid state machine over an administrator and up to 6 clients: connect in the 1.2.3 flow (name and a 2- or 4-byte icon in login) or the 1.5 flow (login, "
+                "later agreed with name/2- or 4-byte icon/options/auto-reply), set-client-user-info (name incl. 505/600-byte names, 2- or 4-byte icon, options "
                 "present or absent), administrator set-user toggling the disconnect privilege (admin flag), disconnect, kick, private message "
                 "to a live or unused id, get-client-info and invitation addressed to an id, and fast-forward of the production client registry "
                 "by {1,100,30000,65000,65530,65536,70000} add/delete cycles, and idling for {50 s, 295 s, 311 s, 10 min} of fake time with the production "
